@@ -254,7 +254,7 @@ def task(prop, seed, size, cfgbins):
 
 def run(prop, tier, seed, t0):
     from .. import plan
-    cfgs = ['simd', 'serial32', 'avx512'] if tier == 'quick' else plan.ALL_CFGS
+    cfgs = plan.ALL_CFGS
     bins, notes, failed = plan.bins_for(cfgs, ('rel', 'chk') if tier == 'quick' else ('rel', 'chk'))
     if failed:
         return plan.fail_build(prop, failed)
